@@ -548,6 +548,9 @@ def run_scenario(sc):
                             net.ev("commit_ret", c=name, ok=True)
                         except Exception as e:  # noqa: BLE001
                             net.ev("commit_ret", c=name, ok=False, exc=type(e).__name__)
+                    elif kind == "unsubscribe":
+                        c.unsubscribe()
+                        net.ev("unsubscribe", c=name)
                     elif kind == "subscribe":
                         c.unsubscribe()
                         c.subscribe(op[1], listener=make_listener(net, name, holder, cfg))
